@@ -6,6 +6,7 @@ import (
 	"fmt"
 	"go/types"
 	"os"
+	"runtime"
 	"path/filepath"
 	"sort"
 	"strings"
@@ -88,6 +89,9 @@ func buildVC(P *Program, C *Contracts, fn *ssa.Function, noPanic bool) (res *Fun
 					res.OutOfSubset = u.msg
 				} else {
 					res.Error = e.Error()
+					if _, isRT := e.(runtime.Error); isRT && os.Getenv("GOVC_DEBUG") != "" {
+						panic(r)
+					}
 				}
 			default:
 				res.Error = fmt.Sprintf("%v", r)
